@@ -25,6 +25,10 @@ output follows the effective verbosity, whose values are Model/Action.v `effecti
 (`eff_table`); the whole observation is compared with `vrun_ops` / `vrun_verbs` of the model.
   task.verbosity     the attribute after the run: 0/1/2, -1 = None, -9 = the run did not get to the task, 99 anything else
   -6                 separates the list of these attributes from the rest of the observation
+
+Part H (runs that end with a user error): see the comment there.  Observation of an in-process run: per channel the cell
+(0 = the object installed before the run, 999 = anything else), -3, the chunks that reached the original stream (the two
+chunks the harness writes to sys.stdout / sys.stderr AFTER the run included).
 """
 import io, itertools, os, re, signal, sys, threading
 import common
@@ -1551,6 +1555,327 @@ def vrun_one(spec, tmp, tag, eff, out):
     return [dict(model=model, expected=expected, desc=('vrun', spec))]
 
 
+# ------------------------------------------------------------------ H. runs that end with a user error
+# `doit run` that ends with a user error BEFORE any task is executed (a name on the command line that is no task /
+# target / sub-task, with and without --single; a task_dep / setup naming a task that does not exist; two tasks with one
+# target; two tasks with one name; an unknown task field; an unknown reporter on the command line / in DOIT_CONFIG; a bad
+# value of -n / -v / -P; an unknown option; an output file that cannot be opened), or inside run_all (a dependency
+# cycle, a delayed task creator that produces a second task for a target), and a run without error as control --
+# crossed with every reporter (console, executed-only, json, zero, error-only, a user's sub-class of JsonReporter
+# given in DOIT_CONFIG; chosen by -r / --reporter or in DOIT_CONFIG; with and without -o file) and runner option.
+# In-process through DoitMain.run: sys.stdout / sys.stderr must be the very objects they were before the run (the
+# JSON reporter replaces them in __init__ and only complete_run puts them back), the error text must be on the ORIGINAL
+# stderr, nothing on the original stdout, no task executed, and what the embedding program writes to sys.stdout /
+# sys.stderr AFTER the run must arrive (chunks 1 / 2: compared with Model/Action.v `run_ops v [] [] ++ [Write ..]`).
+# Through the real command line: exit status, the error text on stderr, nothing on stdout, no task executed.
+# kind -> (text that must reach stderr, exit status, the run gets as far as Runner.run_all)
+UE_KINDS = {
+    'unknown-task': ('"nosuch"', 3, False),
+    'unknown-target': ('sub/nosuch.txt', 3, False),
+    'unknown-subtask': ('g:nosuch', 3, False),
+    'single-unknown': ('"nosuch"', 3, False),
+    'dangling-task-dep': ("'ghost'", 3, False),
+    'dangling-setup': ("'ghost'", 3, False),
+    'duplicate-target': ('common target', 3, False),
+    'duplicate-task-name': ('must be unique', 3, False),
+    'invalid-task-field': ('nosuchfield', 3, False),
+    'unknown-reporter': ('nosuchrep', 3, False),
+    'unknown-reporter-config': ('nosuchrep', 3, False),
+    'bad-n': ('num_process', 3, False),
+    'bad-verbosity': ('verbosity', 3, False),
+    'unknown-option': ('nosuchopt', 3, False),
+    'outfile-unwritable': ('nonexistent', 3, False),
+    'bad-par-type': ('bogus', 3, False),
+    'bad-par-type-config': ('bogus', 3, False),
+    'cycle-selected': ('Cyclic', 3, True),
+    'cycle-all': ('Cyclic', 3, True),
+    'delayed-duplicate-target': (None, 2, True),
+    'no-error': (None, 0, True),
+}
+UE_REPORTERS = ('console', 'executed-only', 'json', 'zero', 'error-only', 'json-class')
+UE_RUNNERS = ((), ('-n', '1', '-P', 'thread'), ('-n', '2', '-P', 'thread'), ('-n', '1', '-P', 'process'), ('-n', '2', '-P', 'process'))
+# `doit run -r json -n 2 -P bogus`: cmd_run.py built the reporter before it rejected the parallel type -- the streams stayed
+# replaced and the message was swallowed; found by this part, repaired by /repo 251526a (the runner class is selected first).
+# The input stays in the generated cases, with a shape of its own (KNOWN_FINDINGS.json lists it as fixed)
+UE_DEFECT_SHAPE = 'user-error-json-invalid-par-type'
+UE_AFTER = (1, 2)     # chunks the embedding program writes to sys.stdout / sys.stderr after the run
+
+UE_DODO = r"""
+import os, sys
+from doit.loader import create_after
+from doit.reporter import JsonReporter
+D = %(d)r
+class MyJson(JsonReporter):
+    desc = 'a reporter class of the user'
+def mk(name):
+    def f():
+        open(os.path.join(D, 'ran-' + name.replace(':', '.')), 'w').close()
+    return f
+def task_a():
+    return dict(actions=[mk('a')], targets=[os.path.join(D, 'ta')])
+def task_b():
+    return dict(actions=[mk('b')], task_dep=['a'])
+def task_g():
+    yield dict(name='1', actions=[mk('g:1')])
+"""
+UE_EXTRA = {
+    'dangling-task-dep': "def task_c():\n    return dict(actions=[mk('c')], task_dep=['ghost'])\n",
+    'dangling-setup': "def task_c():\n    return dict(actions=[mk('c')], setup=['ghost'])\n",
+    'duplicate-target': "def task_c():\n    return dict(actions=[mk('c')], targets=[os.path.join(D, 'ta')])\n",
+    'duplicate-task-name': "def task_x():\n    return dict(basename='a', actions=[mk('x')])\n",
+    'invalid-task-field': "def task_c():\n    return dict(actions=[mk('c')], nosuchfield=1)\n",
+    'cycle': ("def task_c():\n    return dict(actions=[mk('c')], task_dep=['d'])\n"
+              "def task_d():\n    return dict(actions=[mk('d')], task_dep=['c'])\n"),
+    'delayed-duplicate-target': ("@create_after(executed='a')\ndef task_late():\n"
+                                 "    yield dict(name='1', actions=[mk('late:1')], targets=[os.path.join(D, 'ta')])\n"),
+}
+UE_ARGS = {
+    'unknown-task': ['nosuch'], 'unknown-target': ['sub/nosuch.txt'], 'unknown-subtask': ['g:nosuch'],
+    'single-unknown': ['--single', 'nosuch'], 'unknown-reporter': ['-r', 'nosuchrep'], 'bad-n': ['-n', 'many'],
+    'bad-verbosity': ['-v', 'loud'], 'unknown-option': ['--nosuchopt'], 'bad-par-type': ['-n', '2', '-P', 'bogus'],
+    'cycle-selected': ['c'],
+}
+
+
+def ue_json_like(spec):
+    return spec['reporter'] in ('json', 'json-class')
+
+
+def ue_normalise(spec):
+    """constraints between the dimensions of a case (see the comments); returns the spec"""
+    kind = spec['kind']
+    reaches = UE_KINDS[kind][2]
+    if spec['reporter'] == 'json-class' or kind == 'unknown-reporter':
+        spec['how'] = 'config'          # a class can only be named in DOIT_CONFIG; -r carries the unknown name
+    if kind == 'unknown-reporter-config':
+        spec['how'] = 'none'            # DOIT_CONFIG carries the unknown name: the reporter dimension is void
+    if kind in ('bad-par-type', 'bad-par-type-config'):
+        spec['runner'] = []             # the kind brings its own -n / -P
+    if reaches:
+        # two worker threads: python-actions may overlap (KNOWN finding thread-overlap-python-actions) -- not here
+        if list(spec['runner']) == ['-n', '2', '-P', 'thread']:
+            spec['runner'] = ['-n', '1', '-P', 'thread']
+        if spec['route'] == 'main':
+            # the default output stream of `run` is the sys.stdout of the moment doit.cmd_run was imported: keep the
+            # reporter's own output in a file, and do not fork the check
+            spec['outfile'] = True
+            if 'process' in spec['runner']:
+                spec['runner'] = []
+    return spec
+
+
+def ue_dodo(spec, d):
+    kind = spec['kind']
+    src = UE_DODO % dict(d=d) + UE_EXTRA.get('cycle' if kind.startswith('cycle') else kind, '')
+    cfg = ["'dep_file': os.path.join(D, 'db')", "'backend': 'json'"]     # json: no file handle left open when the command ends early
+    if kind == 'unknown-reporter-config':
+        cfg.append("'reporter': 'nosuchrep'")
+    elif spec['how'] == 'config':
+        cfg.append("'reporter': %s" % ('MyJson' if spec['reporter'] == 'json-class' else repr(spec['reporter'])))
+    if kind == 'bad-par-type-config':
+        cfg += ["'num_process': 2", "'par_type': 'bogus'"]
+    return src + 'DOIT_CONFIG = {%s}\n' % ', '.join(cfg)
+
+
+def ue_argv(spec, d):
+    kind = spec['kind']
+    argv = []
+    if spec['how'] in ('-r', '--reporter'):
+        argv += [spec['how'], spec['reporter']]
+    if kind == 'outfile-unwritable':
+        argv += ['-o', os.path.join(d, 'nonexistent', 'sub', 'report')]
+    elif spec['outfile']:
+        argv += ['-o', os.path.join(d, 'report')]
+    if spec['v'] is not None:
+        argv += ['-v', str(spec['v'])]
+    if spec['cont']:
+        argv += ['--continue']
+    return argv + list(spec['runner']) + UE_ARGS.get(kind, [])
+
+
+def ue_ran(d):
+    return sorted(f[4:].replace('.', ':') for f in os.listdir(d) if f.startswith('ran-'))
+
+
+def uerr_case(spec, tmp, tag):
+    """one run for real; observation: exit status, what reached the original stdout / stderr, the tasks executed,
+    (in-process) which objects are installed afterwards and whether what is written then arrives"""
+    import shutil, subprocess
+    d = os.path.join(tmp, tag)
+    shutil.rmtree(d, ignore_errors=True)
+    os.makedirs(d)
+    src, argv = ue_dodo(spec, d), ue_argv(spec, d)
+    r = dict(argv=argv, crash=None, cells=None)
+    with open(os.path.join(d, 'dodo.py'), 'w') as f:        # in-process too: the loader looks up source lines (inspect)
+        f.write(src)
+    if spec['route'] == 'cli':
+        try:
+            p = subprocess.run([common.PY, '-m', 'doit', 'run', '-f', os.path.join(d, 'dodo.py')] + argv, cwd=d, env=common.impl_env(),
+                               stdout=subprocess.PIPE, stderr=subprocess.PIPE, text=True, timeout=120)
+            r.update(rc=p.returncode, out=p.stdout, err=p.stderr)
+        except Exception as e:  # noqa
+            r.update(rc=98, out='', err='', crash=repr(e))
+        r['ran'] = ue_ran(d)
+        return r
+    from doit.doit_cmd import DoitMain
+    from doit.cmd_base import ModuleTaskLoader
+
+    def call():
+        ns = {'__name__': 'dodo'}
+        exec(compile(src, os.path.join(d, 'dodo.py'), 'exec'), ns)
+        return DoitMain(ModuleTaskLoader(ns)).run(['run'] + argv)
+
+    def guarded(fn):
+        if not spec['runner']:
+            return fn()
+        box = []
+
+        def target():
+            try:
+                box.append(('rc', fn()))
+            except BaseException as e:  # noqa
+                box.append(('exc', e))
+        th = threading.Thread(target=target, daemon=True)
+        th.start()
+        th.join(60)
+        if not box:
+            raise RuntimeError('the run did not end within 60 s')
+        if box[0][0] == 'exc':
+            raise box[0][1]
+        return box[0][1]
+    with Streams() as st:
+        try:
+            rc = guarded(call)
+            r['rc'] = rc if isinstance(rc, int) and not isinstance(rc, bool) else 98
+        except BaseException as e:  # noqa
+            r['rc'], r['crash'] = 98, repr(e)
+        cells = (sys.stdout, sys.stderr)
+        # the embedding program goes on printing
+        for ch in (0, 1):
+            try:
+                (sys.stderr if ch else sys.stdout).write(text(UE_AFTER[ch]))
+            except Exception:  # noqa
+                pass
+    r['cells'] = [0 if cells[ch] is (st.out, st.err)[ch] else 999 for ch in (0, 1)]
+    r['cell_types'] = [type(c).__module__ + '.' + type(c).__name__ for c in cells]
+    r.update(out=st.out.getvalue(), err=st.err.getvalue(), ran=ue_ran(d))
+    return r
+
+
+def uerr_violations(spec, r):
+    kind = spec['kind']
+    word, want_rc, reaches = UE_KINDS[kind]
+    probs = []
+    if r['cells'] is not None:
+        for ch, name in ((0, 'sys.stdout'), (1, 'sys.stderr')):
+            if r['cells'][ch] != 0:
+                probs.append('%s is not the object it was before the run (it is a %s%s)' % (
+                    name, r['cell_types'][ch], ' -- the JSON reporter installs such objects when it is built and puts the saved ones back '
+                    'in complete_run only' if ue_json_like(spec) and 'StringIO' in r['cell_types'][ch] else ''))
+    if r['rc'] != want_rc:
+        probs.append('exit status %s, expected %s' % (r['rc'], want_rc))
+    if word is not None and word not in r['err']:
+        probs.append('the error message (%r) did not reach the %sstderr, which got %r' % (word, 'original ' if r['cells'] is not None else '', r['err'][-200:]))
+    if not reaches and (CHUNK.sub('', r['out']) if r['cells'] is not None else r['out']) != '':
+        probs.append('the %sstdout got %r' % ('original ' if r['cells'] is not None else '', r['out'][:200]))
+    if r['cells'] is not None:
+        for ch, name, got in ((0, 'sys.stdout', r['out']), (1, 'sys.stderr', r['err'])):
+            if dec_loose(got) != [UE_AFTER[ch]]:
+                probs.append('what the program wrote to %s after the run did not arrive on the original stream' % name)
+    if not reaches and r['ran']:
+        probs.append('tasks %s were executed' % r['ran'])
+    if kind == 'no-error' and r['ran'] != ['a', 'b', 'g:1']:
+        probs.append('tasks executed: %s, expected a, b, g:1' % r['ran'])
+    if r['crash']:
+        probs.append('unexpected exception %s' % r['crash'])
+    if not probs:
+        return []
+    # the defect of this family that was found in the code (repaired since) keeps a shape of its own
+    if kind in ('bad-par-type', 'bad-par-type-config') and ue_json_like(spec):
+        shape = UE_DEFECT_SHAPE
+    else:
+        shape = 'user-error-run:%s' % kind
+    where = '`doit run %s` (%s; reporter %s%s) -- a run that %s' % (
+        ' '.join(a if not a.startswith('/') else '<tmp>/' + os.path.basename(a) for a in r['argv']),
+        'in-process, DoitMain.run' if spec['route'] == 'main' else 'real command line',
+        spec['reporter'], ' from DOIT_CONFIG' if spec['how'] == 'config' else '',
+        'ends with a user error (%s) %s' % (kind, 'inside run_all' if reaches else 'before any task is executed') if want_rc else 'has no error')
+    return [dict(what='%s: %s' % (where, '; '.join(probs)), shape=shape, case=dict(uerr=spec, observed=dict(rc=r['rc'], stdout=r['out'][:200], stderr=r['err'][-300:], ran=r['ran'], cells=r['cells'])))]
+
+
+def uerr_model(spec, r):
+    """the run as Model/Action.v sees it: the tasks executed (none for the errors before run_all) write nothing,
+    then the embedding program writes one chunk to each stream"""
+    ts = '[' + '; '.join('{| t_capture := true; t_acts := [{| as_id := %d; as_ws := []; as_tag := RNone |}]; t_teardown := [] |}' % i
+                        for i in range(len(r['ran']))) + ']'
+    model = 'obs2 [] [] [] (run_ops %d %s [] ++ [Write false %d; Write true %d])' % (1 if spec['v'] is None else spec['v'], ts, UE_AFTER[0], UE_AFTER[1])
+    expected = [r['cells'][0], -3] + dec_loose(r['out']) + [r['cells'][1], -3] + dec_loose(r['err'])
+    return dict(model=model, expected=expected, desc=('user-error-run', spec))
+
+
+def gen_uerr_specs(ctx):
+    rng = ctx.rng
+    specs = []
+
+    def mk(kind, rep, runner, route, outfile=None, how=None):
+        return ue_normalise(dict(kind=kind, reporter=rep, runner=list(runner), route=route,
+                                 outfile=rng.random() < 0.5 if outfile is None else outfile,
+                                 how=rng.choice(['-r', '--reporter', 'config']) if how is None else how,
+                                 v=rng.choice([None, 0, 1, 2]), cont=rng.random() < 0.3))
+    for kind in UE_KINDS:
+        for rep in UE_REPORTERS:
+            for runner in UE_RUNNERS:
+                if ctx.quick:
+                    specs.append(mk(kind, rep, runner, 'main'))
+                else:
+                    specs += [mk(kind, rep, runner, 'main', outfile=o, how=h) for o in (False, True) for h in ('-r', 'config')]
+    for kind in UE_KINDS:
+        if ctx.quick:
+            specs.append(mk(kind, 'json', rng.choice(UE_RUNNERS), 'cli'))
+            specs.append(mk(kind, rng.choice([x for x in UE_REPORTERS if x != 'json']), rng.choice(UE_RUNNERS), 'cli'))
+        else:
+            specs += [mk(kind, rep, runner, 'cli') for rep in UE_REPORTERS for runner in UE_RUNNERS]
+    # the constraints make some cases equal
+    seen, res = set(), []
+    for s_ in specs:
+        key = tuple(sorted((k, tuple(v) if isinstance(v, list) else v) for k, v in s_.items()))
+        if key not in seen:
+            seen.add(key)
+            res.append(s_)
+    return res
+
+
+def part_user_errors(ctx, out):
+    from concurrent.futures import ThreadPoolExecutor
+    tmp = ctx.subdir('uerr')
+    specs = gen_uerr_specs(ctx)
+    results = {}
+    cli = [(n, s_) for n, s_ in enumerate(specs) if s_['route'] == 'cli']
+    with ThreadPoolExecutor(max_workers=max(1, min(4, common.NCPU))) as ex:      # sub-processes only
+        futs = [(n, ex.submit(uerr_case, s_, tmp, 'u%d' % n)) for n, s_ in cli]
+        for n, s_ in enumerate(specs):
+            if s_['route'] == 'main':
+                results[n] = uerr_case(s_, tmp, 'u%d' % n)
+        for n, f in futs:
+            results[n] = f.result()
+    cases, n_cli = [], 0
+    for n, s_ in enumerate(specs):
+        r = results[n]
+        vs = uerr_violations(s_, r)
+        if s_['route'] == 'main':
+            cases.append(uerr_model(s_, r))
+        else:
+            n_cli += 1
+        out.count('user-error:%s:%s' % (s_['route'], s_['kind']))
+        out.count('user-error:reporter:%s' % s_['reporter'])
+        out.nontrivial.add(('uerr', s_['kind'], s_['reporter'], s_['how'], s_['outfile'], tuple(s_['runner']), s_['route']))
+        out.violations += vs
+    out.extra['user_error_cli_runs_exercised_only'] = n_cli
+    if cases:
+        out.samples.append({'user_error_run': cases[2]['desc'][1], 'observed(stdout ++ stderr)': cases[2]['expected']})
+    return cases
+
+
 def run(ctx):
     out = Outcome()
     out.rule = ('python-action representatives per way of ending (exhaustive over tags; SystemExit/KeyboardInterrupt/GeneratorExit/user BaseException included); '
@@ -1560,16 +1885,19 @@ def run(ctx):
                 '(write sequences x verbosity x capture x way of ending) for capture; random runs of task chains with teardowns through Runner, '
                 'MThreadRunner(1), DoitMain.run (serial / -n 1 -P thread); Stream/overwrite_verbosity exhaustively and runs of tasks with own verbosity '
                 'None/0/1/2, with/without setup tasks, under every global setting (Stream(v, forced) for the runners built by hand; -v x DOIT_CONFIG for '
-                'DoitMain.run and the real command line incl. -n 1 -P process), swept systematically for a task WITH setup tasks.  non-trivial = distinct case with >=2 actions/ops/writes '
-                '(classification cases count per representative)')
+                'DoitMain.run and the real command line incl. -n 1 -P process), swept systematically for a task WITH setup tasks; runs that end with a user error '
+                'before any task is executed / inside run_all (%d kinds) x reporter (console, executed-only, json, zero, error-only, user sub-class of '
+                'JsonReporter; -r / DOIT_CONFIG; with / without -o) x runner option, in-process (identity of sys.stdout / sys.stderr, error text on the '
+                'original stderr, later writes arrive) and through the real command line.  non-trivial = distinct case with >=2 actions/ops/writes '
+                '(classification cases count per representative)') % len(UE_KINDS)
     cases = []
-    for part in (part_py, part_cmd, part_task, part_restore_nested, part_restore_threads, part_capture, part_runs, part_verbosity):
+    for part in (part_py, part_cmd, part_task, part_restore_nested, part_restore_threads, part_capture, part_runs, part_verbosity, part_user_errors):
         real = (sys.stdout, sys.stderr)
         try:
             cases += part(ctx, out)
         finally:
             sys.stdout, sys.stderr = real
-    out.evaluations = len(cases) + out.extra.get('cmd_capture_runs_exercised_only', 0)
+    out.evaluations = len(cases) + out.extra.get('cmd_capture_runs_exercised_only', 0) + out.extra.get('user_error_cli_runs_exercised_only', 0)
     bad = common.compare_with_model(ctx, PRE, cases)
     out.traces_validated = len(cases)
     for i, m in bad:
@@ -1577,11 +1905,18 @@ def run(ctx):
     out.assumptions = ['byte-level behaviour of subprocess pipes / StringIO / decoding is exercised, not proved (partial)',
                        'inspect.signature binding in _prepare_kwargs is an oracle',
                        'teardown actions whose own exception escapes, and the thread runner with a BaseException other than SystemExit/KeyboardInterrupt '
-                       '(its worker does not hand it over: the run never ends), are outside the model of a run']
+                       '(its worker does not hand it over: the run never ends), are outside the model of a run',
+                       'what the `run` command does to sys.stdout / sys.stderr outside action executions is not in Model/Action.v: the JSON reporter '
+                       'replaces them when it is built (JsonReporter.__init__) and puts them back in complete_run -- modelled in Model/Report.v (C19: '
+                       'w_swapped, init, unswap), here exercised by the runs that end with a user error (part H); a run that executes nothing is the '
+                       'empty event sequence (C17_restore_empty_run), later writes reach the original streams (C17_after_run_writes)']
     out.extra['trusted_base'] = ['mapping of concrete Python return values / exceptions to the tags of Model/Action.v (harness/c17.py py_representatives, END_TAG)',
                                  'the sequence of Enter/Write/Exit events a generated case stands for (harness/c17.py Sim)',
                                  'the order in which a run executes the setup tasks of a task (Model/Action.v units_of) and the way the `run` command builds its '
-                                 'Stream (cmd_stream) are validated by the generated runs only (DOIT_CONFIG and -v; INI files / environment are not exercised)']
+                                 'Stream (cmd_stream) are validated by the generated runs only (DOIT_CONFIG and -v; INI files / environment are not exercised)',
+                                 'that a `doit run` ending with a user error before Runner.run_all starts no action execution and leaves the streams alone '
+                                 '(the empty event sequence of C17_restore_empty_run) is validated by the generated user-error runs only (harness/c17.py part H); '
+                                 'reporter construction / complete_run (the JSON reporter swaps sys.stdout / sys.stderr) is modelled in Model/Report.v, not in Model/Action.v']
     return out
 
 
@@ -1591,7 +1926,15 @@ def replay(ctx, payload):
     case, shape = payload.get('case', {}), payload.get('shape', '')
     print(payload.get('what'))
     vs = None
-    if 'forest' in case:
+    if 'uerr' in case:
+        spec = case['uerr']
+        r = uerr_case(spec, ctx.subdir('replay'), 'replay')
+        print('   argv: doit run %s' % ' '.join(r['argv']))
+        print('   exit status %s; original stdout %r; original stderr %r; tasks executed %s%s' % (
+            r['rc'], r['out'][:200], r['err'][-300:], r['ran'],
+            '' if r['cells'] is None else '; sys.stdout / sys.stderr afterwards: %s (0 = the object installed before the run)' % r['cells']))
+        vs = uerr_violations(spec, r)
+    elif 'forest' in case:
         vs = forest_violations(case['forest'], forest_case(case['forest']))
     elif 'spec' in case and isinstance(case['spec'], dict) and 'vtasks' in case['spec']:
         spec = case['spec']
